@@ -1,4 +1,5 @@
 import BoxoModel.C34.Round
+import BoxoModel.C34.Wire
 /-!
 # C34 — Bitswap messages round-trip and decoded blocks are self-certifying
 
@@ -314,6 +315,22 @@ theorem c34_reject_presence (H : Hash) (p : PMsg) (x : PPres) (hx : x ∈ p.pres
   · split
     · rfl
     · simp only [key p.presences _ hx]
+
+/-- **Wire round trip**: the proto3 bytes written for a pb.Message (field-number order, zero values
+omitted, int32 as sign-extended varint, embedded messages length-delimited) are read back as the same
+pb.Message by the field-loop decoder — for every message with int32 priorities / types / pending bytes
+and a total size below 2^64 bytes. -/
+theorem c34_wire (p : PMsg) (hok : p.ok) (hlen : (encodePMsg p).length < 2 ^ 64) :
+    decodePMsg (encodePMsg p) = some p := decodePMsg_encodePMsg p hok hlen
+
+/-- wire round trip composed with the v1 round trip: bytes of `ToProtoV1 m` parse back to `m` -/
+theorem c34_v1_wire_roundtrip (H : Hash) (m : Msg) (hw : m.WF) (hs : m.Sendable H) (hh : m.Honest H)
+    (hok : (toProtoV1 H m).ok) (hlen : (encodePMsg (toProtoV1 H m)).length < 2 ^ 64) :
+    ∃ m', (decodePMsg (encodePMsg (toProtoV1 H m))).bind (fromProto H) = some m' ∧ m'.full = m.full ∧
+      m'.pending = m.pending ∧
+      ∀ c, m'.getEntry c = m.getEntry c ∧ m'.getBlock c = m.getBlock c ∧ m'.getPres c = m.getPres c := by
+  rw [c34_wire _ hok hlen]
+  exact c34_v1_roundtrip H m hw hs hh
 
 /-- **addEntry merge laws**: cancel and send-dont-have are sticky, the strongest want type wins
 (Block = 0 over Have = 1), the priority only follows a want of the same type, other CIDs are untouched. -/
